@@ -59,6 +59,9 @@ DOCS = [
     ("newick:two", "newick", "[&R] ((A,B),C); [&U] (A,(B,C));\n", ["TreeList", "Tree"], {}),
     ("newick:quoted", "newick", "(('A a':1e-2,B_b)[&s=1]:3,C[c]:0);", ["TreeList", "DataSet"], {}),
     ("newick:leaf", "newick", "A;", ["TreeList", "Tree"], {}),
+    # options that make the reader evaluate more of the text: tree weights (fractions) and jplace edge numbers
+    ("newick:weights", "newick", "[&W 1/2] (A,B); [&W 0.25] [&R] (A,(B,C));\n", ["TreeList", "Tree"], {"store_tree_weights": True}),
+    ("newick:jplace", "newick", "((A:1{0},B:1{1}):1{2},C:2{3}){4};\n", ["TreeList"], {"is_parse_jplace_tokens": True}),
     ("nexus:taxa-trees", "nexus",
      "#NEXUS\nBEGIN TAXA;\n DIMENSIONS NTAX=3;\n TAXLABELS A B C;\nEND;\nBEGIN TREES;\n TREE t1 = [&R] ((A:1,B:2):1,C:3);\n TREE t2 = (A,B,C);\nEND;\n",
      ["DataSet", "TreeList", "Tree"], {}),
@@ -76,6 +79,11 @@ DOCS = [
     ("nexus:title-link", "nexus",
      "#NEXUS\nBEGIN TAXA;\n TITLE one;\n DIMENSIONS NTAX=2;\n TAXLABELS A B;\nEND;\nBEGIN TAXA;\n TITLE two;\n DIMENSIONS NTAX=2;\n TAXLABELS C D;\nEND;\n"
      "BEGIN TREES;\n LINK TAXA = two;\n TREE t = (C,D);\nEND;\n", ["DataSet"], {}),
+    # every kind of block titled and linked: a LINK may then name a block whose TITLE an edit removed
+    ("nexus:all-linked", "nexus",
+     "#NEXUS\nBEGIN TAXA;\n TITLE tx;\n DIMENSIONS NTAX=2;\n TAXLABELS A B;\nEND;\nBEGIN CHARACTERS;\n TITLE ch;\n LINK TAXA = tx;\n DIMENSIONS NCHAR=2;\n"
+     " FORMAT DATATYPE=DNA;\n MATRIX\n A AC\n B A-\n ;\nEND;\nBEGIN TREES;\n TITLE tr;\n LINK TAXA = tx;\n TREE t = (A,B);\nEND;\n"
+     "BEGIN SETS;\n TITLE st;\n LINK CHARACTERS = ch;\n CHARSET c1 = 1-2;\nEND;\n", ["DataSet"], {}),
     ("nexus:unknown-block", "nexus",
      "#NEXUS\nBEGIN PAUP;\n set x=y;\nEND;\nBEGIN TREES;\n TREE t = (A,(B,C));\nEND;\n", ["DataSet", "TreeList"], {}),
     ("nexus:continuous", "nexus",
@@ -85,6 +93,7 @@ DOCS = [
      "#NEXUS\nBEGIN DATA;\n DIMENSIONS NTAX=2 NCHAR=3;\n FORMAT DATATYPE=STANDARD SYMBOLS=\"01\" MISSING=? GAP=-;\n MATRIX\n A 01?\n B 1(01)-\n ;\nEND;\n",
      ["DataSet", "StandardMatrix"], {}),
     ("phylip:relaxed", "phylip", "3 4\nAlpha ACGT\nBeta A-GT\nGamma ACGA\n", ["DnaMatrix", "DataSet"], {}),
+    ("phylip:short-labels", "phylip", "3 2\nA AC\nB AG\nC AT\n", ["DnaMatrix", "DataSet"], {}),
     ("phylip:strict", "phylip", "2 4\nAlpha     ACGT\nBeta b    ACGA\n", ["DnaMatrix", "DataSet"], {"strict": True}),
     ("phylip:interleaved", "phylip", "2 6\nAlpha ACG\nBeta ACC\n\nTTT\nTTA\n", ["DnaMatrix", "DataSet"], {"interleaved": True}),
     ("phylip:multiline", "phylip", "2 6\nAlpha ACG\nTTT\nBeta ACC\nTTA\n", ["DnaMatrix"], {}),
@@ -94,8 +103,8 @@ DOCS = [
 DOC = {d[0]: d for d in DOCS}
 
 CHAR_ALPHABET = {
-    "newick": "(),:;=[]'\" \nA1-{",
-    "nexus": "(),:;=[]'\" \nA1-{",
+    "newick": "(),:;=[]'\" \nA10-{",
+    "nexus": "(),:;=[]'\" \nA10-{",
     "phylip": " \n>A1x-?",
     "fasta": " \n>A1x-?",
 }
